@@ -5,7 +5,7 @@ from vlib.core import *
 from checks.asdu_common import asan_site
 
 ORACLE = {"FRAME_FAIL": ("C14", "frame-format"), "FCB_FAIL": ("C15", "fcb-primary"), "DUP_FAIL": ("C15", "duplicate-delivery"),
-          "REPEAT_FAIL": ("C15", "repeated-request")}
+          "REPEAT_FAIL": ("C15", "repeated-request"), "ACCEPT_FAIL": ("C14", "accepted-foreign-or-damaged")}
 
 
 def run(res, pid):
@@ -22,8 +22,8 @@ def run(res, pid):
         if rc != 0:
             last = open(ops).read().splitlines()[-1:] if os.path.exists(ops) else [""]
             site = asan_site(out)
-            crash = {"last_operation": last[0], "sanitizer_site": site, "report": out[-1500:]}
-            diffs = [{"op": last[0], "impl": "sanitizer abort at %s" % (site,), "model": ""}]
+            crash = {"last_operation": (last[0] if last else ""), "sanitizer_site": site, "report": out[-1500:]}
+            diffs = [{"op": (last[0] if last else ""), "impl": "sanitizer abort at %s" % (site,), "model": ""}]
         else:
             histo = ([l for l in out.splitlines() if l.startswith("HISTO")] or [""])[-1]
             run_model(ops, model)
